@@ -1083,6 +1083,514 @@ fn step_build(rng: &mut Rng) -> Result<ArrayRef, ArrowError> {
     })
 }
 
+
+// ------------------------------------------------------------- kernel-model correspondence (k-ops)
+
+/// canonical physical observation of a take / filter / concat result on a fixed-width or byte array:
+/// length, offsets relative to the first one, the value window, the declared null count.  Bytes of
+/// fixed-width slots selected by a *null index* are zeroed (the kernel copies whatever the garbage index
+/// addresses, the model writes `T::default()`).
+fn canon_kernel(out: &ArrayRef, null_idx: &[bool]) -> String {
+    use DataType::*;
+    let d = out.to_data();
+    let n = d.len();
+    let rel = |offs: Vec<i64>| -> (String, usize, usize) {
+        if offs.is_empty() {
+            return ("0".to_string(), 0, 0);
+        }
+        let o0 = offs[0];
+        (offs.iter().map(|o| (o - o0).to_string()).collect::<Vec<_>>().join(","), o0 as usize, *offs.last().unwrap() as usize)
+    };
+    let (offs, vals) = match d.data_type() {
+        Utf8 => {
+            let a = out.as_string::<i32>();
+            let (s, lo, hi) = rel(a.value_offsets().iter().map(|x| *x as i64).collect());
+            (s, a.value_data()[lo..hi].to_vec())
+        }
+        Binary => {
+            let a = out.as_binary::<i32>();
+            let (s, lo, hi) = rel(a.value_offsets().iter().map(|x| *x as i64).collect());
+            (s, a.value_data()[lo..hi].to_vec())
+        }
+        LargeUtf8 => {
+            let a = out.as_string::<i64>();
+            let (s, lo, hi) = rel(a.value_offsets().to_vec());
+            (s, a.value_data()[lo..hi].to_vec())
+        }
+        LargeBinary => {
+            let a = out.as_binary::<i64>();
+            let (s, lo, hi) = rel(a.value_offsets().to_vec());
+            (s, a.value_data()[lo..hi].to_vec())
+        }
+        t => {
+            let w = prim_width(t).unwrap_or(match t {
+                FixedSizeBinary(k) => *k as usize,
+                _ => 0,
+            });
+            let b = d.buffers()[0].as_slice();
+            let mut v = b[d.offset() * w..(d.offset() + n) * w].to_vec();
+            for (i, isnull) in null_idx.iter().enumerate() {
+                if *isnull && i < n {
+                    for x in v[i * w..(i + 1) * w].iter_mut() {
+                        *x = 0;
+                    }
+                }
+            }
+            ("-".to_string(), v)
+        }
+    };
+    format!("len={} offs={} vals={} nulls={} wf=1", n, offs, hex(&vals), out.null_count())
+}
+
+fn k_types() -> Vec<DataType> {
+    use DataType::*;
+    vec![Int8, Int16, Int32, Int64, UInt32, Float64, Decimal128(10, 2), Date32, FixedSizeBinary(3), FixedSizeBinary(1), Utf8, Utf8, LargeUtf8, Binary, LargeBinary]
+}
+
+fn show_opt_idx(v: &[Option<usize>]) -> String {
+    if v.is_empty() { "-".into() } else { v.iter().map(|x| x.map(|i| i.to_string()).unwrap_or("n".into())).collect::<Vec<_>>().join(",") }
+}
+
+fn gen_kcase(rng: &mut Rng) -> (String, String) {
+    let dt = rng.pick(&k_types()).clone();
+    let n = pick_len(rng);
+    let off = pick_off(rng);
+    let kt = kind_tag(&dt);
+    match rng.below(5) {
+        0 | 1 => {
+            let p = gen_layout(rng, &dt, n, off, false, false);
+            let m = if n == 0 { rng.usize(3) } else { rng.usize(n + 5) };
+            let with_nulls = n == 0 || rng.chance(1, 2);
+            let idx: Vec<Option<usize>> = (0..m).map(|_| if n == 0 || (with_nulls && rng.chance(1, 4)) { None } else { Some(rng.usize(n)) }).collect();
+            (format!("C01 ktake {} {} {} {}", lt_token(&dt), show_phys(&p), show_opt_idx(&idx), rng.below(3)), format!("op:ktake ty:{}{}", kt, if n > 0 { " nt" } else { "" }))
+        }
+        2 | 3 => {
+            let p = gen_layout(rng, &dt, n, off, false, false);
+            let m = rand_mask(rng, n);
+            let bits: Vec<bool> = m.iter().map(|x| x == Some(true)).collect();
+            let nulls: Vec<bool> = m.iter().map(|x| x.is_none()).collect();
+            // mask: value bits, null bits (a null mask slot selects nothing), optimise flag, bit offset of the mask
+            (
+                format!("C01 kfilter {} {} {} {} {} {}", lt_token(&dt), show_phys(&p), show_bits(&bits), show_bits(&nulls), rng.below(2), rng.below(10)),
+                format!("op:kfilter ty:{}{}", kt, if n > 0 { " nt" } else { "" }),
+            )
+        }
+        _ => {
+            let k = 1 + rng.usize(3);
+            let parts: Vec<String> = (0..k)
+                .map(|_| {
+                    let (n, off) = (pick_len(rng).min(12), pick_off(rng));
+                    show_phys(&gen_layout(rng, &dt, n, off, false, false))
+                })
+                .collect();
+            (format!("C01 kconcat {} {}", lt_token(&dt), parts.join("+")), format!("op:kconcat ty:{} nt", kt))
+        }
+    }
+}
+
+fn parse_dump(dump: &str, dt: &DataType) -> Phys {
+    let mut c = Cur { s: dump.as_bytes(), i: 0 };
+    let p = parse_phys(&mut c, dt);
+    assert_eq!(c.i, dump.len());
+    p
+}
+
+fn run_kcase(t: &[&str]) -> String {
+    let dt = lt_parse(t[2]);
+    match t[1] {
+        "ktake" => {
+            let a = make_array(build(&parse_dump(t[3], &dt)));
+            let idx: Vec<Option<u64>> = if t[4] == "-" { vec![] } else { t[4].split(',').map(|x| if x == "n" { None } else { Some(x.parse().unwrap()) }).collect() };
+            let null_idx: Vec<bool> = idx.iter().map(|x| x.is_none()).collect();
+            let out = match t[5] {
+                "0" => arrow_select::take::take(a.as_ref(), &UInt32Array::from(idx.iter().map(|x| x.map(|v| v as u32)).collect::<Vec<_>>()), None),
+                "1" => arrow_select::take::take(a.as_ref(), &Int64Array::from(idx.iter().map(|x| x.map(|v| v as i64)).collect::<Vec<_>>()), None),
+                _ => arrow_select::take::take(a.as_ref(), &UInt8Array::from(idx.iter().map(|x| x.map(|v| v as u8)).collect::<Vec<_>>()), None),
+            };
+            match out {
+                Ok(o) => canon_kernel(&o, &null_idx),
+                Err(e) => format!("ERR:{}", err_class(&e)),
+            }
+        }
+        "kfilter" => {
+            let a = make_array(build(&parse_dump(t[3], &dt)));
+            let bits = parse_bits(t[4]);
+            let nulls = parse_bits(t[5]);
+            let k: usize = t[7].parse().unwrap();
+            let mut v: Vec<Option<bool>> = (0..k).map(|i| Some(i % 2 == 0)).collect();
+            v.extend(bits.iter().zip(nulls.iter()).map(|(b, n)| if *n { None } else { Some(*b) }));
+            let m = BooleanArray::from(v).slice(k, bits.len());
+            let out = if t[6] == "1" { arrow_select::filter::FilterBuilder::new(&m).optimize().build().filter(a.as_ref()) } else { arrow_select::filter::filter(a.as_ref(), &m) };
+            match out {
+                Ok(o) => canon_kernel(&o, &[]),
+                Err(e) => format!("ERR:{}", err_class(&e)),
+            }
+        }
+        "kconcat" => {
+            let parts: Vec<ArrayRef> = t[3].split('+').map(|d| make_array(build(&parse_dump(d, &dt)))).collect();
+            let refs: Vec<&dyn Array> = parts.iter().map(|x| x.as_ref()).collect();
+            match arrow_select::concat::concat(&refs) {
+                Ok(o) => canon_kernel(&o, &[]),
+                Err(e) => format!("ERR:{}", err_class(&e)),
+            }
+        }
+        _ => "bad-op".into(),
+    }
+}
+
+// ------------------------------------------------------------------ builder histories (hist op)
+
+const HIST_WORDS: [&str; 8] = ["", "a", "twelve bytes", "thirteen bytes", "a string that is longer than twelve bytes", "\u{20ac}uro sign and more text here", "zz", "another rather long value 0123456789"];
+
+/// a view array to feed `append_array` with: owns data buffers (long values), or all inline, possibly sliced
+fn hist_view_source(rng: &mut Rng) -> StringViewArray {
+    let mut b = StringViewBuilder::new();
+    if rng.bool() {
+        b = b.with_fixed_block_size(*rng.pick(&[16u32, 40, 64]));
+    }
+    let n = 1 + rng.usize(6);
+    let inline_only = rng.chance(1, 4);
+    for _ in 0..n {
+        if rng.chance(1, 5) {
+            b.append_null();
+        } else if inline_only {
+            b.append_value(rng.pick(&["", "a", "zz", "twelve bytes"]));
+        } else {
+            b.append_value(rng.pick(&HIST_WORDS));
+        }
+    }
+    let a = b.finish();
+    if rng.chance(1, 3) && a.len() > 1 {
+        let o = rng.usize(a.len());
+        a.slice(o, rng.usize(a.len() - o + 1))
+    } else {
+        a
+    }
+}
+
+fn hist_check<T: PartialEq + std::fmt::Debug>(what: &str, got: Vec<Option<T>>, want: &[Option<T>]) {
+    if got.len() != want.len() {
+        oracle(format!("hist-len-mismatch:{}:{}vs{}", what, got.len(), want.len()));
+    } else if got.as_slice() != want {
+        let i = got.iter().zip(want.iter()).position(|(a, b)| a != b).unwrap_or(0);
+        oracle(format!("hist-value-mismatch:{}:row{}", what, i));
+    }
+}
+
+/// every array a builder hands out is a produced array: validate, compare with the history, dump
+fn hist_out(a: ArrayRef, desc: &str, k: &mut usize) {
+    if let Err(e) = a.to_data().validate_full() {
+        loud(&e);
+        oracle(format!("out-validate_full-err:hist:{}", err_class(&e)));
+    } else {
+        format_all(a.as_ref());
+    }
+    emit_array(&a, &format!("{}.{}", desc, *k));
+    *k += 1;
+}
+
+fn run_hist(kind: &str, seed: u64) {
+    let mut rng = Rng::new(seed ^ 0x4157);
+    let rng = &mut rng;
+    let steps = 2 + rng.usize(10);
+    let desc = format!("hist-{}-{}", kind, seed);
+    let mut k = 0usize;
+    match kind {
+        "sv" | "bv" => {
+            // GenericByteViewBuilder (string and binary flavour share the code; drive the string one, cast for bv)
+            let mut b = StringViewBuilder::new();
+            match rng.below(4) {
+                0 => b = b.with_fixed_block_size(*rng.pick(&[16u32, 48, 100])),
+                1 => b = b.with_deduplicate_strings(),
+                _ => {}
+            }
+            let mut want: Vec<Option<String>> = vec![];
+            let mut blocks: Vec<(u32, Vec<u8>)> = vec![];
+            let fin = |b: &mut StringViewBuilder, want: &mut Vec<Option<String>>, cloned: bool, k: &mut usize| {
+                let a = if cloned { b.finish_cloned() } else { b.finish() };
+                let ok = a.to_data().validate_full().is_ok();
+                if ok {
+                    hist_check("sv", a.iter().map(|x| x.map(|s| s.to_string())).collect(), want);
+                }
+                let out: ArrayRef = if kind == "bv" { Arc::new(a.to_binary_view()) } else { Arc::new(a) };
+                hist_out(out, &desc, k);
+                if !cloned {
+                    want.clear();
+                }
+            };
+            for _ in 0..steps {
+                match rng.below(10) {
+                    0 | 1 | 2 => {
+                        let w = *rng.pick(&HIST_WORDS);
+                        b.append_value(w);
+                        want.push(Some(w.to_string()));
+                        tag("h:append_value".into());
+                    }
+                    3 => {
+                        b.append_null();
+                        want.push(None);
+                        tag("h:append_null".into());
+                    }
+                    4 | 5 | 6 => {
+                        let src = hist_view_source(rng);
+                        b.append_array(&src);
+                        want.extend(src.iter().map(|x| x.map(|s| s.to_string())));
+                        tag(format!("h:append_array{}", if src.data_buffers().is_empty() { "-inline" } else { "-buffers" }));
+                    }
+                    7 => {
+                        let data = b"block data with several words in it 0123456789".to_vec();
+                        let id = b.append_block(Buffer::from_slice_ref(&data));
+                        blocks.push((id, data));
+                        tag("h:append_block".into());
+                    }
+                    8 => {
+                        if let Some((id, data)) = blocks.last() {
+                            let o = rng.usize(data.len());
+                            let l = rng.usize(data.len() - o + 1);
+                            if b.try_append_view(*id, o as u32, l as u32).is_ok() {
+                                want.push(Some(String::from_utf8(data[o..o + l].to_vec()).unwrap()));
+                            }
+                            tag("h:try_append_view".into());
+                        }
+                    }
+                    _ => {
+                        let cloned = rng.bool();
+                        tag(format!("h:{}", if cloned { "finish_cloned" } else { "finish" }));
+                        fin(&mut b, &mut want, cloned, &mut k);
+                        if !cloned {
+                            blocks.clear();
+                        }
+                    }
+                }
+            }
+            fin(&mut b, &mut want, false, &mut k);
+        }
+        "s" | "ls" => {
+            let mut want: Vec<Option<String>> = vec![];
+            macro_rules! drive {
+                ($B:ty) => {{
+                    let mut b = <$B>::new();
+                    for i in 0..=steps {
+                        match if i == steps { 9 } else { rng.below(10) } {
+                            0 | 1 | 2 => {
+                                let w = *rng.pick(&HIST_WORDS);
+                                b.append_value(w);
+                                want.push(Some(w.to_string()));
+                            }
+                            3 => {
+                                b.append_null();
+                                want.push(None);
+                            }
+                            4 => {
+                                let w = *rng.pick(&HIST_WORDS);
+                                let n = rng.usize(4);
+                                b.append_value_n(w, n);
+                                for _ in 0..n {
+                                    want.push(Some(w.to_string()));
+                                }
+                            }
+                            5 => {
+                                let n = rng.usize(3);
+                                b.append_nulls(n);
+                                for _ in 0..n {
+                                    want.push(None);
+                                }
+                            }
+                            6 | 7 => {
+                                let mut sb = <$B>::new();
+                                for _ in 0..1 + rng.usize(5) {
+                                    if rng.chance(1, 4) { sb.append_null() } else { sb.append_value(rng.pick(&HIST_WORDS)) }
+                                }
+                                let src = sb.finish();
+                                let src = if rng.bool() && src.len() > 1 { let o = 1 + rng.usize(src.len() - 1); src.slice(o, src.len() - o) } else { src };
+                                if b.append_array(&src).is_ok() {
+                                    want.extend(src.iter().map(|x| x.map(|s| s.to_string())));
+                                }
+                                tag("h:append_array".into());
+                            }
+                            c => {
+                                let cloned = c == 8;
+                                let a = if cloned { b.finish_cloned() } else { b.finish() };
+                                hist_check("s", a.iter().map(|x| x.map(|s| s.to_string())).collect(), &want);
+                                hist_out(Arc::new(a), &desc, &mut k);
+                                if !cloned {
+                                    want.clear();
+                                }
+                            }
+                        }
+                    }
+                }};
+            }
+            if kind == "s" { drive!(StringBuilder) } else { drive!(LargeStringBuilder) }
+        }
+        "p" => {
+            let mut b = Int32Builder::new();
+            let mut want: Vec<Option<i32>> = vec![];
+            for i in 0..=steps {
+                match if i == steps { 9 } else { rng.below(10) } {
+                    0 | 1 => {
+                        let v = rng.range(-9, 9) as i32;
+                        b.append_value(v);
+                        want.push(Some(v));
+                    }
+                    2 => {
+                        b.append_null();
+                        want.push(None);
+                    }
+                    3 => {
+                        let n = rng.usize(10);
+                        b.append_nulls(n);
+                        want.extend((0..n).map(|_| None));
+                    }
+                    4 => {
+                        let v: Vec<i32> = (0..rng.usize(10)).map(|_| rng.range(0, 99) as i32).collect();
+                        b.append_slice(&v);
+                        want.extend(v.iter().map(|x| Some(*x)));
+                    }
+                    5 => {
+                        let v: Vec<i32> = (0..rng.usize(10)).map(|_| rng.range(0, 99) as i32).collect();
+                        let ok: Vec<bool> = v.iter().map(|_| rng.chance(3, 4)).collect();
+                        b.append_values(&v, &ok);
+                        want.extend(v.iter().zip(ok.iter()).map(|(x, o)| if *o { Some(*x) } else { None }));
+                    }
+                    6 | 7 => {
+                        let src = Int32Array::from((0..1 + rng.usize(12)).map(|_| if rng.chance(1, 4) { None } else { Some(rng.range(0, 99) as i32) }).collect::<Vec<_>>());
+                        let src = if rng.bool() && src.len() > 1 { let o = 1 + rng.usize(src.len() - 1); src.slice(o, src.len() - o) } else { src };
+                        b.append_array(&src);
+                        want.extend(src.iter());
+                        tag("h:append_array".into());
+                    }
+                    c => {
+                        let cloned = c == 8;
+                        let a = if cloned { b.finish_cloned() } else { b.finish() };
+                        hist_check("p", a.iter().collect(), &want);
+                        hist_out(Arc::new(a), &desc, &mut k);
+                        if !cloned {
+                            want.clear();
+                        }
+                    }
+                }
+            }
+        }
+        "l" => {
+            let mut b = ListBuilder::new(Int32Builder::new());
+            let mut rows = 0usize;
+            for i in 0..=steps {
+                match if i == steps { 9 } else { rng.below(10) } {
+                    0..=4 => {
+                        for _ in 0..rng.usize(4) {
+                            b.values().append_option(if rng.chance(1, 4) { None } else { Some(rng.range(0, 9) as i32) });
+                        }
+                        b.append(rng.chance(3, 4));
+                        rows += 1;
+                    }
+                    5 => {
+                        b.append_null();
+                        rows += 1;
+                    }
+                    6 => {
+                        let n = rng.usize(3);
+                        b.append_nulls(n);
+                        rows += n;
+                    }
+                    7 => {
+                        b.append_value((0..rng.usize(3)).map(|j| Some(j as i32)));
+                        rows += 1;
+                    }
+                    c => {
+                        let cloned = c == 8;
+                        let a = if cloned { b.finish_cloned() } else { b.finish() };
+                        if a.len() != rows {
+                            oracle(format!("hist-len-mismatch:l:{}vs{}", a.len(), rows));
+                        }
+                        hist_out(Arc::new(a), &desc, &mut k);
+                        if !cloned {
+                            rows = 0;
+                        }
+                    }
+                }
+            }
+        }
+        "st" => {
+            let mut b = StructBuilder::from_fields(vec![Field::new("a", DataType::Int32, true), Field::new("b", DataType::Utf8, true)], 0);
+            let mut rows = 0usize;
+            for i in 0..=steps {
+                match if i == steps { 9 } else { rng.below(10) } {
+                    0..=5 => {
+                        b.field_builder::<Int32Builder>(0).unwrap().append_option(if rng.chance(1, 4) { None } else { Some(3) });
+                        b.field_builder::<StringBuilder>(1).unwrap().append_option(if rng.chance(1, 4) { None } else { Some(*rng.pick(&HIST_WORDS)) });
+                        b.append(rng.chance(3, 4));
+                        rows += 1;
+                    }
+                    6 | 7 => {
+                        b.field_builder::<Int32Builder>(0).unwrap().append_null();
+                        b.field_builder::<StringBuilder>(1).unwrap().append_null();
+                        b.append_null();
+                        rows += 1;
+                    }
+                    c => {
+                        let cloned = c == 8;
+                        let a = if cloned { b.finish_cloned() } else { b.finish() };
+                        if a.len() != rows {
+                            oracle(format!("hist-len-mismatch:st:{}vs{}", a.len(), rows));
+                        }
+                        hist_out(Arc::new(a), &desc, &mut k);
+                        if !cloned {
+                            rows = 0;
+                        }
+                    }
+                }
+            }
+        }
+        _ => {
+            // "d": StringDictionaryBuilder<Int8Type>
+            let mut b = StringDictionaryBuilder::<Int8Type>::new();
+            let mut want: Vec<Option<String>> = vec![];
+            for i in 0..=steps {
+                match if i == steps { 9 } else { rng.below(10) } {
+                    0..=3 => {
+                        let w = *rng.pick(&HIST_WORDS);
+                        if b.append(w).is_ok() {
+                            want.push(Some(w.to_string()));
+                        }
+                    }
+                    4 => {
+                        b.append_null();
+                        want.push(None);
+                    }
+                    5 => {
+                        let n = rng.usize(3);
+                        b.append_nulls(n);
+                        want.extend((0..n).map(|_| None));
+                    }
+                    6 => {
+                        let w = *rng.pick(&HIST_WORDS);
+                        let n = rng.usize(3);
+                        b.append_values(w, n);
+                        want.extend((0..n).map(|_| Some(w.to_string())));
+                    }
+                    c => {
+                        let a = match c {
+                            7 => b.finish_preserve_values(),
+                            8 => b.finish_cloned(),
+                            _ => b.finish(),
+                        };
+                        let got: Vec<Option<String>> = {
+                            let vals = a.values().as_string::<i32>();
+                            a.keys().iter().map(|k| k.map(|k| vals.value(k as usize).to_string())).collect()
+                        };
+                        hist_check("d", got, &want);
+                        hist_out(Arc::new(a), &desc, &mut k);
+                        if c != 8 {
+                            want.clear();
+                        }
+                    }
+                }
+            }
+        }
+    }
+}
+
 // ------------------------------------------------------------------------------- run_case
 
 fn format_all(a: &dyn Array) {
@@ -1097,6 +1605,15 @@ fn run_case(line: &str) -> String {
     OUT.with(|o| *o.borrow_mut() = None);
     match t[1] {
         "batch" => "wf=1".into(),
+        "ktake" | "kfilter" | "kconcat" => run_kcase(&t),
+        "hist" => {
+            tag(format!("op:hist-{}", t[2]));
+            let (kind, seed) = (t[2].to_string(), t[3].parse::<u64>().unwrap());
+            if catch_unwind(AssertUnwindSafe(|| run_hist(&kind, seed))).is_err() {
+                oracle(format!("panic:hist-{}", kind));
+            }
+            "ok".into()
+        }
         "step" | "stepx" => {
             let (desc, step, lt, dump) = (t[2], t[3], t[4], t[5]);
             let dt = lt_parse(lt);
@@ -1646,6 +2163,17 @@ fn main() {
         }
         let grid = type_grid();
         let n = n_cases(&args, 2500, 100000);
+        // kernel-model correspondence and builder histories
+        let mut krng = Rng::new(args.seed ^ 0xC01_0001);
+        for _ in 0..n {
+            let (line, tags) = gen_kcase(&mut krng);
+            let _ = emit(&mut sink, line, &tags);
+        }
+        for i in 0..n / 2 {
+            let kind = ["sv", "sv", "sv", "bv", "s", "ls", "p", "l", "st", "d"][i % 10];
+            let line = format!("C01 hist {} {}", kind, krng.below(1 << 40));
+            let _ = emit(&mut sink, line, "nt");
+        }
         for idx in 0..n {
             let mut rng = Rng::new((args.seed ^ 0xC01).wrapping_add((idx as u64).wrapping_mul(0x9E37_79B9_7F4A_7C15)));
             let (gname, dt) = rng.pick(&grid).clone();
